@@ -41,6 +41,7 @@ type Violation struct {
 	Trace  []int64
 	Where  string
 	Prefix []int
+	Slow   bool // the path let a timer fire while other goroutines were still busy: natively the harness's nd.Slow() points block
 }
 
 type obsEnt struct {
@@ -93,6 +94,7 @@ type Exec struct {
 	decided   map[string]bool
 	lastIn    ssa.Instruction
 	uf        map[string]BoolV
+	timerFired bool
 	hostDone  chan struct{}
 }
 
